@@ -206,13 +206,26 @@ def run(ctx):
     fd = ag.func("core_core_der_fd")
     ctx.check(any(callee_attr(c) == "pair_nuclear_energy" for c in calls_in(fd)), "R2", ag, fd, "core_core_der_fd", fd.name,
               "finite-difference core-core derivative differences pair_nuclear_energy itself", "core_core_der_fd no longer calls pair_nuclear_energy")
-    rets = [norm(r.test) if False else None for r in []]
-    an_methods = set()
-    for iff in ast.walk(ccd):
-        if isinstance(iff, ast.If) and "method" in norm(iff.test) and iff is not first_if and any(isinstance(s, ast.Return) for s in iff.body):
-            an_methods |= {c.value for c in ast.walk(iff.test) if isinstance(c, ast.Constant) and isinstance(c.value, str)}
-    ctx.check(an_methods == {"MNDO", "PM3", "AM1"}, "R2", ag, ccd, "core_core_der", "analytical methods", "analytical core-core derivative covers exactly MNDO, AM1, PM3",
-              f"analytical core-core derivative returns for {sorted(an_methods)}")
+    # which methods return an analytical derivative: decided by exploring the routine's flow graph with the method name bound (any spelling of the dispatch)
+    from ..cfg import build_cfg
+    from .c18 import reach_under
+    gcc = build_cfg(ccd)
+
+    def exits(x):
+        seen_, _ = reach_under(gcc, {"@values": {"method": x}})
+        rets_ = [gcc.nodes[n_].stmt for n_ in seen_ if gcc.nodes[n_].kind == "stmt" and isinstance(gcc.nodes[n_].stmt, ast.Return)]
+        raises_ = [gcc.nodes[n_].stmt for n_ in seen_ if gcc.nodes[n_].kind == "stmt" and isinstance(gcc.nodes[n_].stmt, ast.Raise)]
+        fd_ = [r_ for r_ in rets_ if any(callee_attr(c) == "core_core_der_fd" or call_name(c) == "core_core_der_fd" for c in calls_in(r_))]
+        return [r_ for r_ in rets_ if r_ not in fd_], fd_, raises_
+    for x in ("MNDO", "AM1", "PM3"):
+        an, fd_r, rs = exits(x)
+        ctx.check(bool(an) and not fd_r and not rs, "R2", ag, ccd, "core_core_der", f"method {x}", f"{x}: the analytical core-core derivative is returned (no finite-difference delegate, no rejection reachable)",
+                  f"{x}: core_core_der reaches analytical returns={len(an)}, finite-difference returns={len(fd_r)}, raises={len(rs)}")
+    for x in sorted(fd_methods):
+        an, fd_r, rs = exits(x)
+        ctx.check(bool(fd_r) and not an, "R2", ag, ccd, "core_core_der", f"method {x}", f"{x}: only the finite-difference delegate returns", f"{x}: an analytical return is reachable for a PM6-family method")
+    an, fd_r, rs = exits("no-such-method")
+    ctx.check(not an and not fd_r and bool(rs), "R2", ag, ccd, "core_core_der", "unknown method", "an unknown method name is rejected", "an unknown method name reaches a return of core_core_der")
 
     # ------------------------------------------------------------------ R3
     stencils = [(AG, "w_derivative_numerical"), (AG, "overlap_der_finiteDiff"), (AG, "core_core_der_fd")]
